@@ -1,8 +1,17 @@
-use minijinja::{Environment, context};
+use minijinja::{context, Environment};
+// usage: probe [name=source ...] <main source>   — companions are given as name=source
 fn main() {
-    let env = Environment::new();
-    for src in std::env::args().skip(1) {
-        let r = env.render_str(&src, context!{ s => "abcdef", l => vec![1,2,3], m => context!{k => 5} });
-        println!("{src:40} => {r:?}");
+    let mut env = Environment::new();
+    let args: Vec<String> = std::env::args().skip(1).collect();
+    for a in &args[..args.len().saturating_sub(1)] {
+        if let Some((n, s)) = a.split_once('=') {
+            env.add_template_owned(n.to_string(), s.to_string()).unwrap();
+        }
     }
+    let src = args.last().cloned().unwrap_or_default();
+    let r = env.render_str(
+        &src,
+        context! { s => "abcdef", l => vec![1,2,3], m => context!{k => 5}, ll => vec![vec![1, 2], vec![3]] },
+    );
+    println!("{src} => {:?}", r.map_err(|e| format!("{e:#}").replace(char::from(10), " ")));
 }
